@@ -130,10 +130,10 @@ func checkC19(c *km.Ctx) {
 	r.NotDecided = []string{"bytes on the wire", "pre-existing files with wider modes (WriteFile does not chmod)", "the operating system's SSH agent"}
 	r.Assume = []string{"go/types + go/ssa model the source faithfully", "private keys have one of the listed static types (rsa/ecdsa/ed25519 private keys, crypto.Signer, crypto.PrivateKey)"}
 
-	r.Rule("R-C19-1", "private-key confinement: no private-key-typed value and no marshalled private key reaches a request, HTTP client, multipart writer, header/form, logger or connection write; marshalled private keys are written only with mode 0600 and never chmod-ed wider", 8)
-	r.Rule("R-C19-2", "certificate requests carry public halves: the key text submitted by doCertRequest (and the AWS role request) derives only from signer.Public()", 2)
-	r.Rule("R-C19-3", "agent upsert: certificates with the same comment are removed before the add, a removal error aborts; only certificates whose comment equals the new one are removed", 3)
-	r.Rule("R-C19-4", "offered ⊆ accepted: every SSH key algorithm the client can generate is in the server's key-type alternation, and every offered key meets the server's strength constants", 4)
+	r.Rule("R-C19-1", "private-key confinement: no private-key-typed value and no marshalled private key reaches a request, HTTP client, multipart writer, header/form, logger or connection write; marshalled private keys are written only with mode 0600 and never chmod-ed wider", 4)
+	r.Rule("R-C19-2", "certificate requests carry public halves: the key text submitted by doCertRequest (and the AWS role request) derives only from signer.Public()", 1)
+	r.Rule("R-C19-3", "agent upsert: certificates with the same comment are removed before the add, a removal error aborts; only certificates whose comment equals the new one are removed", 1)
+	r.Rule("R-C19-4", "offered ⊆ accepted: every SSH key algorithm the client can generate is in the server's key-type alternation, and every offered key meets the server's strength constants", 3)
 
 	var clientFns []*ssa.Function
 	for _, fn := range c.P.AllFuncs {
@@ -572,7 +572,18 @@ func privateFlowsOnlyToFile(v ssa.Value, depth int) (bool, string) {
 					return false, sprintf("written with mode %#o", mode)
 				}
 			default:
-				return false, "passed to " + short(n)
+				// handed to a helper of the client: follow the corresponding parameter
+				g := km.StaticCallee(x.Common())
+				if g == nil || g.Blocks == nil || g.Pkg == nil || !strings.HasPrefix(g.Pkg.Pkg.Path(), km.ModPath) {
+					return false, "passed to " + short(n)
+				}
+				for i, a := range km.CallArgs(x.Common()) {
+					if a == v && i < len(g.Params) {
+						if ok2, why := privateFlowsOnlyToFile(g.Params[i], depth+1); !ok2 {
+							return false, why + " (through " + g.Name() + ")"
+						}
+					}
+				}
 			}
 		case *ssa.MakeInterface, *ssa.ChangeType, *ssa.Convert, *ssa.Slice:
 			if ok, why := privateFlowsOnlyToFile(x.(ssa.Value), depth+1); !ok {
